@@ -18,8 +18,8 @@ import os
 
 from harness.common import VERIF, REPO, enc, run_driver
 
-from insights.core import (Parser, CommandParser, JSONParser, YAMLParser, TextFileOutput, LogFileOutput,
-                           Syslog, SafeLoader)
+from insights.core import (Parser, CommandParser, ContainerParser, JSONParser, YAMLParser, TextFileOutput, LogFileOutput,
+                           LazyLogFileOutput, Syslog, SafeLoader)
 from insights.core.exceptions import ContentException, ParseException, SkipComponent
 from insights.tests import context_wrap
 import yaml
@@ -80,6 +80,14 @@ class PlainCmd(CommandParser):
         self.got = content
 
 
+class PlainContainer(ContainerParser):
+    def parse_content(self, content):
+        self.got = content
+
+
+CONTAINER_KW = {"image": "registry.example/img:1", "engine": "podman", "container_id": "39e7c1aa21b2"}
+
+
 def extra_cmd(extra):
     class ExtraCmd(CommandParser):
         def __init__(self, context):
@@ -128,19 +136,30 @@ def gen_cmd_case(rng):
             content.append("")
         else:
             content.append(gen_text(rng, 5))
-    return {"op": "cmd", "extra": extra, "content": content}
+    case = {"op": "cmd", "extra": extra, "content": content}
+    if extra is None and rng.random() < 0.3:
+        case["container"] = True
+    elif extra is not None and rng.random() < 0.25:
+        case["extra_form"] = "tuple"           # round 10: extra_bad_lines given as a tuple (also the empty tuple)
+    return case
 
 
 def cmd_impl(case):
     content = list(case["content"])
-    cls = PlainCmd if case["extra"] is None else extra_cmd(list(case["extra"]))
+    container = bool(case.get("container"))
+    shape = tuple if case.get("extra_form") == "tuple" else list
+    cls = PlainContainer if container else PlainCmd if case["extra"] is None else extra_cmd(shape(case["extra"]))
     try:
-        p = cls(context_wrap(content))
+        p = cls(context_wrap(content, **(CONTAINER_KW if container else {})))
     except ContentException as e:
         return ("CE", str(e))
     except BaseException as e:  # noqa
         return ("EXC", type(e).__name__)
-    return ("OK", p.got, cls.__name__)
+    if container:
+        got = {k: getattr(p, k, None) for k in CONTAINER_KW}
+        if got != CONTAINER_KW:
+            return ("EXC", "container-attributes:%r" % (got,))
+    return ("OK", getattr(p, "got", "\0parse_content was not called"), cls.__name__)
 
 
 def cmd_oracle(case, out):
@@ -342,7 +361,30 @@ def doc_impl(cls, content, **kw):
         return ("PE",)
     except BaseException as e:  # noqa
         return ("EXC", type(e).__name__)
-    return ("DATA", p.data, getattr(p, "unparsed_lines", None))
+    return ("DATA", p.data, getattr(p, "unparsed_lines", None), legacy_check(p))
+
+
+def legacy_check(p):
+    """LegacyItemAccess of JSONParser / YAMLParser: `p[k]`, `k in p`, `p.get(k[, default])` are the document's own"""
+    d = p.data
+    try:
+        if isinstance(d, dict):
+            for k in list(d)[:4]:
+                if not (k in p):
+                    return "key %r of the document is not `in` the parser" % (k,)
+                if p[k] is not d[k] or p.get(k) is not d[k] or p.get(k, 7) is not d[k]:
+                    return "parser[%r] / parser.get(%r) is not the document's value" % (k, k)
+            miss = "\0no such key"
+            if miss not in d and (miss in p or p.get(miss) is not None or p.get(miss, 7) != 7):
+                return "a key that is not in the document is reported / the default of get() is not returned"
+        elif isinstance(d, list) and d:
+            if p[0] is not d[0] or p[len(d) - 1] is not d[-1]:
+                return "parser[i] is not the i-th element of the document"
+            if not (d[0] in p):
+                return "an element of the document is not `in` the parser"
+    except BaseException as e:  # noqa
+        return "item access on the parser raised %s" % type(e).__name__
+    return None
 
 
 def doc_canon(out):
@@ -371,6 +413,8 @@ def json_oracle(case, out):
     c = case["content"]
     if out[0] == "EXC":
         return "exception type %s (neither SkipComponent nor ParseException)" % out[1], None
+    if out[0] == "DATA" and len(out) > 3 and out[3]:
+        return out[3], None
     if case.get("value") is not None and not (out[0] == "DATA" and canon(out[1]) == case["value"]):
         return "the document was rendered from a value the parser did not return (blank lines between tokens): %s" % doc_canon(out)[:60], None
     if isinstance(c, str):
@@ -602,6 +646,8 @@ def yaml_line(case):
 def yaml_oracle(case, out):
     if out[0] == "EXC":
         return "exception type %s (neither SkipComponent nor ParseException)" % out[1]
+    if out[0] == "DATA" and len(out) > 3 and out[3]:
+        return out[3]
     # with ignore_lines the inserted lines are dropped: the document is `base`
     want = lib_yaml(case["base"] if isinstance(case["base"], str) else "\n".join(case["base"]))
     if case.get("value") is not None and want[1] == case["value"] and not (out[0] == "DATA" and canon(out[1]) == case["value"]):
@@ -855,6 +901,66 @@ ORACLE_FORMATS = [k for k in FORMATS if k not in ("timeonly", "mixed-list")]
 _CLS_CACHE = {}
 
 
+# ---- round 10: the time formats of EVERY shipped LogFileOutput subclass (read at import; rendered with strftime, which is
+# independent of the code under test).  name = "ship:" + the format as JSON, so that a replay finds it again
+SHIPPED_FORMATS = {}          # name -> {"tf": format, "classes": [qualified names], "cls": a shipped class that can be used as is or None}
+
+
+def strf_renderer(f):
+    def r(t):
+        return t.strftime(f)
+    r.__name__ = "strf:" + f
+    r.y2 = "%y" in f
+    return r
+
+
+def _scan_shipped_formats():
+    import importlib
+    import pkgutil
+    import warnings
+    try:
+        import insights.parsers as pkg
+    except Exception:  # noqa
+        return
+    with warnings.catch_warnings():
+        warnings.simplefilter("ignore")
+        for m in pkgutil.walk_packages(pkg.__path__, "insights.parsers."):
+            try:
+                mod = importlib.import_module(m.name)
+            except BaseException:  # noqa
+                continue
+            for k, v in sorted(vars(mod).items()):
+                if not (isinstance(v, type) and issubclass(v, LogFileOutput) and v.__module__ == m.name):
+                    continue
+                tf = v.__dict__.get("time_format", getattr(v, "time_format", None))
+                texts = [tf] if isinstance(tf, str) else list(tf.values()) if isinstance(tf, dict) else list(tf) if isinstance(tf, list) else None
+                if texts is None or not all(isinstance(x, str) and "%" in x for x in texts):
+                    continue      # None / not a strptime format at all: see the get_after-format stream and the report
+                name = "ship:" + json.dumps(tf, sort_keys=True)
+                e = SHIPPED_FORMATS.setdefault(name, {"tf": tf, "classes": [], "cls": None})
+                e["classes"].append(m.name + "." + k)
+                plain = (v.parse_content is TextFileOutput.parse_content and v.__init__ is Parser.__init__
+                         and v._handle_content is Parser._handle_content and v.get_after is LogFileOutput.get_after
+                         and v._parse_line is LogFileOutput._parse_line and v.get is TextFileOutput.get
+                         and v._valid_search is TextFileOutput._valid_search and not v.scanners)
+                if plain and e["cls"] is None:
+                    e["cls"] = v
+    for name, e in SHIPPED_FORMATS.items():
+        texts = [e["tf"]] if isinstance(e["tf"], str) else list(e["tf"].values()) if isinstance(e["tf"], dict) else list(e["tf"])
+        rends = []
+        for f in texts:
+            hy = "%Y" in f or "%y" in f
+            hd = "%d" in f and ("%m" in f or "%b" in f or "%B" in f)
+            rends.append((strf_renderer(f), hy, hd, "%f" in f))
+        FORMATS[name] = (e["tf"], rends, "shipped")
+        if all(r[2] for r in rends) and len(set(r[1] for r in rends)) == 1:
+            ORACLE_FORMATS.append(name)
+
+
+_scan_shipped_formats()
+
+
+
 def log_class(fmt):
     if fmt in _CLS_CACHE:
         return _CLS_CACHE[fmt]
@@ -865,6 +971,9 @@ def log_class(fmt):
         from insights.parsers.messages import Messages as c
     elif base == "secure":
         from insights.parsers.secure import Secure as c
+    elif base == "shipped":
+        # the shipped class itself where it adds nothing to the base class, else a fresh subclass with its format
+        c = SHIPPED_FORMATS[fmt]["cls"] or type("Log_shipped", (LogFileOutput,), {"time_format": tf})
     else:
         c = type("Log_" + fmt.replace("-", "_"), (LogFileOutput,), {"time_format": tf})
     _CLS_CACHE[fmt] = c
@@ -883,6 +992,12 @@ def denoted(rend, t):
     """(the time the rendered stamp DENOTES in its format, the two digits of the year or None).  For %y forms the
     year is read back from the rendered text with the pivot rule: a year outside 1969-2068 is not representable.
     None when the denoted date does not exist (Feb 29 moved to a non-leap year)."""
+    if getattr(rend, "y2", False):          # strftime renderers of shipped formats with %y
+        yy = t.year % 100
+        try:
+            return t.replace(year=pivot_year(yy)), yy
+        except ValueError:
+            return None, yy
     off = Y2_RENDERERS.get(rend.__name__)
     if off is None:
         return t, None
@@ -1185,7 +1300,7 @@ def gen_history(rng):
             y = r[0] if r[0] is not None else (r[4] if len(r) > 4 else thr.year)
             lines.append({"text": text, "t": [y, r[1], r[2], hms[0], hms[1], hms[2], 0], "hy": r[0] is not None, "hd": True, "yy": r[3]})
         calls.append({"op": "after", "fmt": fmt, "form": rng.choice(["str", "str", "list", "dict"]),
-                      "mode": rng.choice(["sub", "sub", "flex", "switch"]), "reuse": rng.random() < 0.3,
+                      "mode": rng.choice(["sub", "sub", "flex", "switch", "lazy"]), "reuse": rng.random() < 0.3,
                       "thr": [thr.year, thr.month, thr.day, thr.hour, thr.minute, thr.second, 0],
                       "s": rng.choice([None, None, None, None, "error", ["e"], ""]), "lines": lines})
     return {"op": "afterseq", "pair": list(pair), "calls": calls}
@@ -1201,10 +1316,11 @@ def history_impl(case):
         try:
             obj = live.get(key) if c["reuse"] else None
             if obj is None:
-                if c["mode"] == "sub":
-                    k = (c["fmt"], c["form"])
+                if c["mode"] in ("sub", "lazy"):
+                    k = (c["fmt"], c["form"], c["mode"])
                     if k not in _HIST_CLS:
-                        _HIST_CLS[k] = type("Hist_%s_%s" % (c["fmt"][2:], c["form"]), (LogFileOutput,), {"time_format": tf})
+                        base = LazyLogFileOutput if c["mode"] == "lazy" else LogFileOutput      # round 10: lazy content loading
+                        _HIST_CLS[k] = type("Hist_%s_%s" % (c["fmt"][2:], c["form"]), (base,), {"time_format": tf})
                     obj = _HIST_CLS[k](context_wrap(texts))
                 elif c["mode"] == "flex":
                     obj = FlexLog(context_wrap(texts))
@@ -1233,7 +1349,8 @@ def tod(t):
 def after_line(case):
     thr = case["thr"]
     s = case["s"]
-    fs = ["1" if fmt_has_year(case["fmt"]) else "0", str(thr[0]), str(thr[1]), str(thr[2]), str(tod(thr))]
+    # round 10: the model derives logs_have_year from the time_format itself (fmtCheck); it is no longer handed over
+    fs = fmt_fields(case_time_format(case)) + [str(thr[0]), str(thr[1]), str(thr[2]), str(tod(thr))]
     fs += ["N"] if s is None else term_fields(s)
     fs.append(str(len(case["lines"])))
     for l in case["lines"]:
@@ -1246,7 +1363,7 @@ def after_line(case):
             y = ("y%d" % l["yy"]) if l.get("yy") is not None else str(t[0]) if l["hy"] else "N"
             mo, d = (t[1], t[2]) if l["hd"] else (1, 1)
             fs.append("%s,%d,%d,%d" % (y, mo, d, tod(t)))
-    return "after\t" + "\t".join(fs)
+    return "afterf\t" + "\t".join(fs)
 
 
 def after_considered(case):
@@ -1301,6 +1418,592 @@ def after_oracle(case, out):
     return "get_after gave %r, the log's own timestamps give %r" % (out, want), fid
 
 
+# ------------------------------------------------------------------ round 10: argument checks of get / in
+
+class PlainLazy(LazyLogFileOutput):
+    pass
+
+
+GET_CLASSES["lazy"] = PlainLazy
+
+BAD_TERMS = {"int": 5, "float": 1.5, "bytes": b"error", "tuple": ("error",), "dict": {"error": 1}, "set": {"error"},
+             "list-int": ["error", 5], "list-none": ["error", None], "list-bytes": [b"error"], "list-list": [["error"]],
+             "true": True, "zero": 0}
+BAD_NUMS = {"str": "1", "float": 1.0, "list": [1], "float-half": 0.5, "tuple": (1,), "none-str": "None"}
+
+
+def gen_getargs_case(rng):
+    base = gen_get_case(rng)
+    r = rng.random()
+    if r < 0.4:
+        term = {"k": "bad", "v": rng.choice(sorted(BAD_TERMS))}
+    elif r < 0.6:
+        term = {"k": "none"}
+    else:
+        term = {"k": "ok", "v": base["term"]}
+    r = rng.random()
+    if r < 0.3:
+        num = {"k": "bad", "v": rng.choice(sorted(BAD_NUMS))}
+    elif r < 0.45:
+        num = {"k": "bool", "v": rng.random() < 0.5}
+    else:
+        num = {"k": "ok", "v": base["num"]}
+    return {"op": "getargs", "cls": rng.choice(["text", "log", "syslog", "lazy"]), "lines": base["lines"], "term": term, "num": num,
+            "check": base["check"], "reverse": base["reverse"]}
+
+
+def getargs_values(case):
+    t, n = case["term"], case["num"]
+    term = BAD_TERMS[t["v"]] if t["k"] == "bad" else None if t["k"] == "none" else (list(t["v"]) if isinstance(t["v"], list) else t["v"])
+    num = BAD_NUMS[n["v"]] if n["k"] == "bad" else n["v"]
+    return term, num
+
+
+def getargs_impl(case):
+    term, num = getargs_values(case)
+    chk_fn = all if case["check"] == "all" else any
+    try:
+        obj = GET_CLASSES[case["cls"]](context_wrap(list(case["lines"])))
+    except BaseException as e:  # noqa
+        return ("EXC:" + type(e).__name__,) * 2
+    try:
+        res = obj.get(term, check=chk_fn, num=num, reverse=case["reverse"])
+        if isinstance(res, list) and all(isinstance(d, dict) and "raw_message" in d for d in res):
+            g = [d["raw_message"] for d in res]
+        else:
+            g = "EXC:shape:%s" % type(res).__name__
+    except TypeError:
+        g = "TE"
+    except BaseException as e:  # noqa
+        g = "EXC:" + type(e).__name__
+    try:
+        h = term in obj
+        h = h if isinstance(h, bool) else "EXC:shape:%s" % type(h).__name__
+    except TypeError:
+        h = "TE"
+    except BaseException as e:  # noqa
+        h = "EXC:" + type(e).__name__
+    return (g, h)
+
+
+def getargs_oracle(case, out):
+    """documented: TypeError when `s` is not a string or a list of strings, or `num` is not an integer; otherwise plain
+    filtering.  (`s=None` is not documented for get: correspondence only.)"""
+    g, h = out
+    for x in out:
+        if isinstance(x, str) and x.startswith("EXC"):
+            return "unexpected outcome %s" % x
+    t, n = case["term"], case["num"]
+    if n["k"] == "bad" and g != "TE":
+        return "num=%r is not an integer, yet get() answered %r instead of TypeError" % (BAD_NUMS[n["v"]], g)
+    if t["k"] == "bad":
+        if g != "TE":
+            return "search item %r is neither a string nor a list of strings, yet get() answered %r" % (BAD_TERMS[t["v"]], g)
+        if h != "TE":
+            return "search item %r is neither a string nor a list of strings, yet `in` answered %r" % (BAD_TERMS[t["v"]], h)
+    if t["k"] == "ok" and n["k"] != "bad":
+        num = n["v"]
+        num = int(num) if isinstance(num, bool) else num
+        wg, wh = get_expected({"term": t["v"], "check": case["check"], "lines": case["lines"], "num": num, "reverse": case["reverse"]})
+        if g != wg:
+            return "get() is not plain filtering: %r, expected %r" % (g, wg)
+        if h != wh:
+            return "`in` gave %r, expected %r" % (h, wh)
+    return None
+
+
+def termarg_fields(t):
+    return ["B"] if t["k"] == "bad" else ["N"] if t["k"] == "none" else term_fields(t["v"])
+
+
+def getargs_lines(case):
+    n = case["num"]
+    num = "B" if n["k"] == "bad" else "N" if n["v"] is None else str(int(n["v"]))
+    tf = termarg_fields(case["term"])
+    ls = fields_list(case["lines"])
+    return ["getpy\t" + "\t".join(["A" if case["check"] == "all" else "O", num, "1" if case["reverse"] else "0"] + tf + ls),
+            "haspy\t" + "\t".join(tf + ls)]
+
+
+def getargs_canon(out):
+    g, h = out
+    return [g if isinstance(g, str) else "OK\t" + "\t".join(fields_list(g)), h if isinstance(h, str) else ("1" if h else "0")]
+
+
+# ------------------------------------------------------------------ round 10: time_format (format-level part of get_after)
+
+SYSLOG_FORMAT = "%b %d %H:%M:%S"          # Syslog / Messages / Secure at the pinned tree (reference, not read from the class)
+KNOWN_DIRECTIVES = "aAwdbBmyYHIpMSf"      # documented table of get_after (reference of the oracle)
+
+
+def fmt_fields(tf):
+    if tf is None:
+        return ["N"]
+    if isinstance(tf, str):
+        return ["S", enc(tf)]
+    if isinstance(tf, dict):
+        tf = list(tf.values())
+    if isinstance(tf, list) and all(isinstance(x, str) for x in tf):
+        return ["L"] + fields_list(tf)
+    return ["O"]
+
+
+def case_time_format(case):
+    """the time_format the object of this call has (an input of the model since round 10)"""
+    fmt = case["fmt"]
+    if fmt in HIST_FORMATS:
+        return shaped(HIST_FORMATS[fmt][0], case.get("form", "str"))
+    tf = FORMATS[fmt][0]
+    return SYSLOG_FORMAT if tf is None else tf
+
+
+FMT_BAD_DIRECTIVES = ["%j", "%z", "%Z", "%U", "%c", "%x", "%X", "%G", "%e", "%1", "%_", "%T", "%s", "%D", "%F"]
+FMT_GOOD = ["%Y-%m-%d %H:%M:%S", "%b %d %H:%M:%S", "%a %b %d %H:%M:%S %Y", "%A, %B %d %Y %I:%M:%S %p", "%w %y%m%d %H:%M:%S.%f",
+            "%%Y-%m-%d", "100%% %H:%M", "%d/%b/%Y:%H:%M:%S", "no directive at all", "% Y", "%", "%%", "%-Y"]
+FMT_OTHER = {"int": 5, "tuple": ("%Y-%m-%d %H:%M:%S",), "bytes": b"%Y-%m-%d", "set": {"%Y"}, "false": False, "zero": 0}
+
+
+def gen_fmt_text(rng):
+    r = rng.random()
+    if r < 0.45:
+        return rng.choice(FMT_GOOD)
+    g = rng.choice(FMT_GOOD[:8])
+    b = rng.choice(FMT_BAD_DIRECTIVES)
+    if r < 0.7:
+        return g + " " + b
+    if r < 0.85:
+        return b + g
+    i = rng.randrange(len(g) + 1)
+    return g[:i] + b + g[i:]
+
+
+def gen_afterfmt_case(rng):
+    r = rng.random()
+    if r < 0.12:
+        tf = {"k": "none"}
+    elif r < 0.27:
+        tf = {"k": "other", "v": rng.choice(sorted(FMT_OTHER))}
+    elif r < 0.62:
+        tf = {"k": "str", "v": gen_fmt_text(rng)}
+    elif r < 0.82:
+        tf = {"k": "list", "v": [gen_fmt_text(rng) for _ in range(rng.randint(1, 3))]}
+    else:
+        tf = {"k": "dict", "v": dict(("v%d" % i, gen_fmt_text(rng)) for i in range(rng.randint(1, 3)))}
+    thr = gen_threshold(rng)
+    lines = [rng.choice(MSG) for _ in range(rng.choice([0, 1, 2, 4]))]       # no line carries a stamp in any of these formats
+    s = rng.choice([None, None, None, "error", [], ["e"], ""])
+    return {"op": "afterfmt", "tf": tf, "mode": rng.choice(["class", "class", "instance"]),
+            "thr": [thr.year, thr.month, thr.day, thr.hour, thr.minute, thr.second, thr.microsecond], "s": s, "lines": lines}
+
+
+def afterfmt_value(tf):
+    return None if tf["k"] == "none" else FMT_OTHER[tf["v"]] if tf["k"] == "other" else tf["v"]
+
+
+def afterfmt_impl(case):
+    tf = afterfmt_value(case["tf"])
+    tf = list(tf) if isinstance(tf, list) else dict(tf) if isinstance(tf, dict) else tf
+    s = case["s"]
+    try:
+        if case["mode"] == "class":
+            obj = type("FmtLog", (LogFileOutput,), {"time_format": tf})(context_wrap(list(case["lines"])))
+        else:
+            obj = FlexLog(context_wrap(list(case["lines"])))
+            obj.time_format = tf
+    except BaseException as e:  # noqa
+        return "EXC:construct:" + type(e).__name__
+    try:
+        gen = obj.get_after(datetime.datetime(*case["thr"]), list(s) if isinstance(s, list) else s)
+    except BaseException as e:  # noqa
+        return "EXC:call:" + type(e).__name__          # get_after is a generator function: the call itself never raises
+    try:
+        return [d["raw_message"] for d in gen]
+    except RuntimeError:
+        return "RE"
+    except ParseException:
+        return "PE"
+    except (ValueError, UnboundLocalError):
+        return "VE"
+    except TypeError:
+        return "TE"
+    except BaseException as e:  # noqa
+        return "EXC:" + type(e).__name__
+
+
+def fmt_unknown_directive(text):
+    """reference reading of the documentation: a `%` followed by a letter/digit/underscore outside the table"""
+    i, n = 0, len(text)
+    while i < n - 1:
+        if text[i] == "%" and (text[i + 1].isalnum() or text[i + 1] == "_"):
+            if text[i + 1] not in KNOWN_DIRECTIVES:
+                return True
+            i += 2
+        else:
+            i += 1
+    return False
+
+
+def afterfmt_oracle(case, out):
+    if isinstance(out, str) and out.startswith("EXC"):
+        return "unexpected outcome %s" % out
+    tf = case["tf"]
+    texts = [tf["v"]] if tf["k"] == "str" else list(tf["v"]) if tf["k"] == "list" else list(tf["v"].values()) if tf["k"] == "dict" else []
+    if any(fmt_unknown_directive(t) for t in texts) and out != "PE":
+        return "time_format %r has a directive get_after does not understand, yet the call answered %r instead of ParseException" % (texts, out)
+    if tf["k"] == "none" and not isinstance(out, str):
+        return "time_format None, yet get_after returned lines %r" % (out,)
+    return None
+
+
+def afterfmt_line(case):
+    thr, s = case["thr"], case["s"]
+    fs = fmt_fields(afterfmt_value(case["tf"])) + [str(thr[0]), str(thr[1]), str(thr[2]), str(tod(thr))]
+    fs += ["N"] if s is None else term_fields(s)
+    fs.append(str(len(case["lines"])))
+    for l in case["lines"]:
+        fs += [enc(l), "-"]
+    return "afterf\t" + "\t".join(fs)
+
+
+# ------------------------------------------------------------------ round 10: scanner registration histories
+
+SCAN_KEYS = ["k0", "k1", "k2", "k3"]
+SCAN_BASES = {"text": TextFileOutput, "log": LogFileOutput, "syslog": Syslog, "lazy": LazyLogFileOutput}
+
+
+def gen_scanhist(rng):
+    ncls = rng.randint(1, 4)
+    ops, classes, nlazy = [], [], 0
+    lines_pool = [[gen_text(rng, 5) for _ in range(rng.choice([0, 1, 3, 5]))] for _ in range(2)]
+
+    def add_class():
+        i = len(classes)
+        if classes and rng.random() < 0.6:
+            parent = rng.randrange(len(classes))
+            classes.append({"base": parent, "lazy": classes[parent]["lazy"]})
+        else:
+            b = rng.choice(["text", "log", "syslog", "lazy", "lazy"])
+            classes.append({"base": b, "lazy": b == "lazy"})
+        ops.append({"o": "C", "c": i, "base": classes[i]["base"]})
+    add_class()
+    objs = []           # lazy objects: (class)
+    for _ in range(rng.randint(3, 12)):
+        r = rng.random()
+        if r < 0.15 and len(classes) < ncls:
+            add_class()
+        elif r < 0.55:
+            c = rng.randrange(len(classes))
+            term = gen_term(rng, allow_empty_list=rng.random() < 0.3)
+            src = [l for ls in lines_pool for l in ls if l]
+            if src and rng.random() < 0.6:
+                term = rng.choice(rng.choice(src).split(" "))
+            ops.append({"o": "R", "c": c, "key": rng.choice(SCAN_KEYS), "kind": rng.choice(["K", "K", "L", "T"]), "term": term,
+                        "check": rng.choice(["all", "any"]), "num": rng.choice([None, None, 0, 1, 2, -1]), "rev": rng.random() < 0.4})
+        elif r < 0.85 or not objs:
+            c = rng.randrange(len(classes))
+            ops.append({"o": "B", "c": c, "lines": list(rng.choice(lines_pool))})
+            if classes[c]["lazy"]:
+                objs.append(c)
+        else:
+            j = rng.randrange(len(objs))
+            if rng.random() < 0.5:
+                ops.append({"o": "A", "obj": j})
+            else:
+                ops.append({"o": "K", "obj": j, "key": rng.choice(SCAN_KEYS + ["", "nokey"])})
+    for j in range(len(objs)):          # every lazy object is scanned completely at the end, then once more
+        ops.append({"o": "A", "obj": j})
+        ops.append({"o": "K", "obj": j, "key": rng.choice(SCAN_KEYS)})
+    return {"op": "scanhist", "ops": ops}
+
+
+def render_attr(v):
+    if isinstance(v, bool):
+        return "F1" if v else "F0"
+    if isinstance(v, list) and all(isinstance(d, dict) and isinstance(d.get("raw_message"), str) for d in v):
+        return "L(" + ",".join(enc(d["raw_message"]) for d in v) + ")"
+    if isinstance(v, dict):
+        if not v:
+            return "D(~)"
+        if isinstance(v.get("raw_message"), str):
+            return "D(" + enc(v["raw_message"]) + ")"
+    return "?" + type(v).__name__
+
+
+def scan_attrs(obj):
+    """the scanner attributes of the object in the order they were set"""
+    return [(k, v) for k, v in vars(obj).items() if k in SCAN_KEYS or k in ("nokey", "")]
+
+
+def show_attrs(attrs):
+    return "A[" + ";".join(enc(k) + "=" + render_attr(v) for k, v in attrs) + "]"
+
+
+def scan_expected(reg, lines):
+    """plain statement of what a scanner attribute holds (independent of get / _valid_search)"""
+    p = plain_pred(reg["term"], reg["check"])
+    hit = [l for l in lines if p(l)]
+    if reg["kind"] == "T":
+        return "F1" if hit else "F0"
+    if reg["kind"] == "L":
+        return "D(" + enc(hit[-1]) + ")" if hit else "D(~)"
+    num = reg["num"]
+    if num is not None:
+        n = max(num, 0)
+        hit = hit[max(len(hit) - n, 0):] if reg["rev"] else hit[:n]
+    return "L(" + ",".join(enc(l) for l in hit) + ")"
+
+
+def scanhist_eval(case):
+    """-> (outcomes, [canonical answer], [driver line], (oracle description, None))"""
+    classes, regs, lazies = {}, {}, []
+    outs, dl, verdict = [], [], None
+    for idx, op in enumerate(case["ops"]):
+        where = "operation %d of %d (%s)" % (idx + 1, len(case["ops"]), json.dumps(op, ensure_ascii=False)[:120])
+        desc = None
+        try:
+            if op["o"] == "C":
+                base = SCAN_BASES[op["base"]] if isinstance(op["base"], str) else classes[op["base"]]
+                classes[op["c"]] = type("Hist%d" % op["c"], (base,), {})
+                regs[op["c"]] = {}
+                outs.append("created")
+                dl += ["C", str(op["c"])]
+            elif op["o"] == "R":
+                cls = classes[op["c"]]
+                chk_fn = all if op["check"] == "all" else any
+                term = list(op["term"]) if isinstance(op["term"], list) else op["term"]
+                try:
+                    if op["kind"] == "K":
+                        cls.keep_scan(op["key"], term, check=chk_fn, num=op["num"], reverse=op["rev"])
+                    elif op["kind"] == "L":
+                        cls.last_scan(op["key"], term, check=chk_fn)
+                    else:
+                        cls.token_scan(op["key"], term, check=chk_fn)
+                    outs.append("registered")
+                    regs[op["c"]].setdefault(op["key"], op)
+                except ValueError:
+                    outs.append("VE")
+                kind = ["K", "N" if op["num"] is None else str(op["num"]), "1" if op["rev"] else "0"] if op["kind"] == "K" else [op["kind"]]
+                dl += ["R", str(op["c"]), enc(op["key"])] + kind + ["A" if op["check"] == "all" else "O"] + term_fields(op["term"])
+            elif op["o"] == "B":
+                cls = classes[op["c"]]
+                is_lazy = issubclass(cls, LazyLogFileOutput)
+                dl += ["Z" if is_lazy else "B", str(op["c"])] + fields_list(op["lines"])
+                try:
+                    obj = cls(context_wrap(list(op["lines"])))
+                except TypeError:
+                    obj = None
+                if is_lazy:
+                    lazies.append({"obj": obj, "c": op["c"], "lines": op["lines"]})
+                    outs.append("lazy" if obj is not None else "TE")
+                    if obj is not None and scan_attrs(obj):
+                        desc = "a lazy parser carries scanner attributes before do_scan: %s" % show_attrs(scan_attrs(obj))
+                elif obj is None:
+                    outs.append("TE")
+                    if not any(r["term"] == [] for r in regs[op["c"]].values()):
+                        desc = "construction raised TypeError although every registered search item is a string or a non-empty list of strings"
+                else:
+                    attrs = scan_attrs(obj)
+                    outs.append(show_attrs(attrs))
+                    have = dict(attrs)
+                    for k, reg in regs[op["c"]].items():
+                        if k not in have:
+                            desc = "scanner %r registered on the class left no attribute on the object" % k
+                        elif render_attr(have[k]) != scan_expected(reg, op["lines"]):
+                            desc = "scanner attribute %s = %s, the lines containing the requested strings give %s" % (
+                                k, render_attr(have[k]), scan_expected(reg, op["lines"]))
+            else:
+                z = lazies[op["obj"]]
+                dl += [op["o"], str(op["obj"])] + ([enc(op["key"])] if op["o"] == "K" else [])
+                if z["obj"] is None:
+                    outs.append("dead")
+                else:
+                    try:
+                        if op["o"] == "K":
+                            z["obj"].do_scan(op["key"])
+                        else:
+                            z["obj"].do_scan()
+                        attrs = scan_attrs(z["obj"])
+                        outs.append(show_attrs(attrs))
+                        have = dict(attrs)
+                        for k, reg in regs[z["c"]].items():
+                            if k in have and render_attr(have[k]) != scan_expected(reg, z["lines"]):
+                                desc = "scanner attribute %s = %s, the lines containing the requested strings give %s" % (
+                                    k, render_attr(have[k]), scan_expected(reg, z["lines"]))
+                            elif k not in have and op["o"] == "A":
+                                desc = "do_scan() left scanner %r registered on the class without an attribute" % k
+                    except TypeError:
+                        outs.append("TE")
+                        z["obj"] = None
+        except BaseException as e:  # noqa
+            outs.append("EXC:" + type(e).__name__)
+            desc = "unexpected exception %s" % type(e).__name__
+            # keep the driver line aligned: an operation that could not be rendered ends the history
+            if verdict is None:
+                verdict = where + ": " + desc
+            break
+        if desc and verdict is None:
+            verdict = where + ": " + desc
+    n_ops = len(outs)
+    # the driver receives as many operations as were carried out
+    line = "scanhist\t%d\t%s" % (n_ops, "\t".join(dl))
+    return outs, ["\t".join(outs)], [line], (verdict, None)
+
+
+# ------------------------------------------------------------------ round 10: plugins.parser.invoke through dr.run
+
+_INVOKE = {}
+
+
+def invoke_components():
+    """a dummy datasource and parser components registered ONCE per process (the registries of dr are additive)"""
+    if _INVOKE:
+        return _INVOKE
+    from insights.core import dr
+    from insights.core.plugins import parser, datasource
+
+    @datasource()
+    def c14_ds(broker):
+        raise RuntimeError("never evaluated: the broker is pre-populated")
+
+    def mk(name, base, coe, extra=None):
+        if extra is None:
+            body = {"parse_content": lambda self, content: setattr(self, "got", content)} if base is CommandParser else {}
+        else:
+            def init(self, context):
+                CommandParser.__init__(self, context, extra_bad_lines=list(extra))
+            body = {"__init__": init, "parse_content": lambda self, content: setattr(self, "got", content)}
+        cls = type(name, (base,), body)
+        parser(c14_ds, continue_on_error=coe)(cls)
+        return cls
+    _INVOKE.update({"ds": c14_ds, "dr": dr, "comps": [
+        ("cmd", mk("C14InvCmd", CommandParser, True), True, None),
+        ("cmd", mk("C14InvCmdStrict", CommandParser, False), False, None),
+        ("cmd", mk("C14InvCmdExtra", CommandParser, True, ["timed out"]), True, ["timed out"]),
+        ("json", mk("C14InvJson", JSONParser, True), True, None),
+        ("json", mk("C14InvJsonStrict", JSONParser, False), False, None),
+        ("log", mk("C14InvLog", LogFileOutput, True), True, None)]})
+    g = {}
+    for _, cls, _, _ in _INVOKE["comps"]:
+        g.update(dr.get_dependency_graph(cls))
+    _INVOKE["graph"] = g
+    return _INVOKE
+
+
+def gen_invoke_case(rng):
+    many = rng.random() < 0.7
+    n = rng.choice([0, 1, 1, 2, 3, 4]) if many else 1
+    contents = []
+    for _ in range(n):
+        r = rng.random()
+        if r < 0.3:
+            ph = rand_case(rng, rng.choice(REF_SINGLE + REF_MULTI + ["timed out"]))
+            c = [(gen_text(rng, 2) + " " + ph + " " + gen_text(rng, 2)).strip()]
+            if rng.random() < 0.4:
+                c.insert(rng.randrange(2), gen_text(rng, 3))
+        elif r < 0.5:
+            c = json.dumps(gen_container(rng), indent=rng.choice([None, 1])).split("\n")
+        elif r < 0.6:
+            c = rng.choice([[], [""], ["null"], ["123"]])
+        else:
+            c = [gen_text(rng, 4) for _ in range(rng.randint(1, 3))]
+        contents.append(c)
+    return {"op": "invoke", "many": many, "contents": contents}
+
+
+def built_alone(kind, cls, content):
+    """the outcome of ONE construction outside the framework: ('O', object) / ('C',) / ('S',) / ('F',)"""
+    try:
+        return ("O", cls(context_wrap(list(content))))
+    except ContentException:
+        return ("C",)
+    except SkipComponent:
+        return ("S",)
+    except Exception:  # noqa
+        return ("F",)
+
+
+def obj_payload(kind, obj):
+    if kind == "cmd":
+        return getattr(obj, "got", "\0none")
+    if kind == "json":
+        return canon(getattr(obj, "data", "\0none"))
+    return getattr(obj, "lines", "\0none")
+
+
+def invoke_eval(case):
+    import logging
+    env = invoke_components()
+    dr = env["dr"]
+    contents = case["contents"]
+    ctxs = [context_wrap(list(c), path="elem%d" % i) for i, c in enumerate(contents)]
+    lg = logging.getLogger("insights.core.plugins")
+    lg2 = logging.getLogger("insights.core.dr")
+    old, old2 = lg.level, lg2.level
+    lg.setLevel(logging.CRITICAL + 1)
+    lg2.setLevel(logging.CRITICAL + 1)
+    outs, canon_outs, lines, verdict = [], [], [], None
+    try:
+        broker = dr.Broker()
+        broker[env["ds"]] = ctxs if case["many"] else ctxs[0]
+        try:
+            broker = dr.run(env["graph"], broker=broker)
+        except BaseException as e:  # noqa
+            return [("EXC", type(e).__name__)], ["EXC:" + type(e).__name__], ["invoke\t1\t1\t0"], ("dr.run raised %s" % type(e).__name__, None)
+        for kind, cls, coe, extra in env["comps"]:
+            stored = broker.get(cls)
+            recorded = sorted(type(e).__name__ for e in broker.exceptions.get(cls, []))
+            alone = [built_alone(kind, cls, c) for c in contents]
+            # canonical rendering of what is stored: indices of the elements the objects stem from (by file_path)
+            desc = None
+            if stored is None:
+                co = "NONE"
+                objs = []
+            elif case["many"]:
+                objs = stored if isinstance(stored, list) else None
+                if objs is None or not all(isinstance(o, cls) for o in objs):
+                    co, objs = "EXC:shape:%s" % type(stored).__name__, []
+                    desc = "the broker holds %r for a list datasource" % (stored,)
+                else:
+                    co = "VS\t" + "\t".join(str(o.file_path).replace("/elem", "") for o in objs)
+            else:
+                objs = [stored] if isinstance(stored, cls) else []
+                co = ("V\t" + str(stored.file_path).replace("/elem", "")) if objs else "EXC:shape:%s" % type(stored).__name__
+                if not objs:
+                    desc = "the broker holds %r instead of a parser object" % (stored,)
+            outs.append((cls.__name__, co, recorded))
+            canon_outs.append(co)
+            lines.append("\t".join(["invoke", str(int(case["many"])), str(int(coe)), str(len(alone))] + [
+                ("O\t%d" % i) if a[0] == "O" else a[0] for i, a in enumerate(alone)]))
+            # ---- oracle (property level, independent of the model)
+            for o in objs:
+                i = int(str(o.file_path).replace("/elem", "")) if str(o.file_path).replace("/elem", "").isdigit() else -1
+                if not (0 <= i < len(contents)):
+                    desc = desc or "a stored object does not stem from any element of the datasource"
+                    continue
+                if kind == "cmd":
+                    one = {"op": "cmd", "extra": extra, "content": contents[i]}
+                    bad = cmd_oracle(one, ("OK", obj_payload(kind, o), cls.__name__))
+                    if bad:
+                        desc = desc or "element %d through the framework: %s" % (i, bad)
+                elif alone[i][0] == "O" and obj_payload(kind, o) != obj_payload(kind, alone[i][1]):
+                    desc = desc or "element %d: the object stored by the framework differs from the one built directly" % i
+            if kind == "cmd":
+                got_idx = set(str(o.file_path) for o in objs)
+                for i, c in enumerate(contents):
+                    one = {"op": "cmd", "extra": extra, "content": c}
+                    is_bad = cmd_oracle(one, ("OK", c, "")) is not None       # the reference lists say: error message
+                    if is_bad and "ContentException" not in recorded and (coe or not any(a[0] in "CF" for a in alone[:i])):
+                        desc = desc or "element %d is an error message, yet no ContentException was recorded for %s" % (i, cls.__name__)
+                    if not is_bad and coe and ("/elem%d" % i) not in got_idx:
+                        desc = desc or "element %d is a normal output, yet %s (continue_on_error) stored no object for it" % (i, cls.__name__)
+            if desc and verdict is None:
+                verdict = desc
+    finally:
+        lg.setLevel(old)
+        lg2.setLevel(old2)
+    return outs, canon_outs, lines, (verdict, None)
+
+
 # ------------------------------------------------------------------ witnesses of the known findings
 
 WITNESSES = [
@@ -1340,6 +2043,17 @@ def eval_case(case):
         return out, [ci], [after_line(case)], after_oracle(case, out)
     if op == "ctxseq":
         return ctx_history_eval(case)
+    if op == "getargs":
+        out = getargs_impl(case)
+        return out, getargs_canon(out), getargs_lines(case), (getargs_oracle(case, out), None)
+    if op == "afterfmt":
+        out = afterfmt_impl(case)
+        ci = out if isinstance(out, str) else "OK\t" + "\t".join(fields_list(out))
+        return out, [ci], [afterfmt_line(case)], (afterfmt_oracle(case, out), None)
+    if op == "scanhist":
+        return scanhist_eval(case)
+    if op == "invoke":
+        return invoke_eval(case)
     if op == "afterseq":
         outs = history_impl(case)
         canon_outs, lines, verdict = [], [], (None, None)
@@ -1379,10 +2093,18 @@ def run(chk):
                 "ignorable lines inside YAML; text logs with overlapping word pools, string / list / empty-list terms, all/any, limits "
                 "incl. 0 and negative, reverse, scanner registration; logs in 12 time formats (shipped ones included) with thresholds "
                 "biased to year boundaries and Feb 28/29, stamps equal to / one second or microsecond around the threshold, "
-                "continuation lines, two stamps in a line; non-trivial = distinct canonical input")
+                "continuation lines, two stamps in a line; round 10: search items and limits of every wrong type (None, int, bytes, tuple, "
+                "lists with a non-string, bool / float / str limits) on text / log / syslog / lazy parsers; time_format None, of a wrong type, "
+                "with directives outside the table at any position, as str / list / dict, on the class or the instance; every time format "
+                "a shipped LogFileOutput subclass declares, rendered with strftime; histories of 3-14 operations over 1-4 classes "
+                "(parent / subclass / sibling, keep_scan / last_scan / token_scan with duplicate keys and empty term lists, registration "
+                "after objects were built, lazy parsers with do_scan(key) / do_scan() / do_scan('')); parser components run by dr.run on a "
+                "pre-populated broker (single value or list of 0-4 outputs, continue_on_error on and off); ContainerParser; "
+                "extra_bad_lines as a tuple; LegacyItemAccess on every document parser; non-trivial = distinct canonical input")
     chk.assumptions = [
         "json.loads / yaml.load(Loader=insights.core.SafeLoader) are parameters of the model (`loads`): the driver is given the library's outcome for every text the parser may pass",
-        "time_re (the format-derived regular expression) and strptime's field extraction are a parameter (`stamp`): the driver is given the generated log's own fields per line; the arithmetic after that (datetime construction with year 1900, replace(year), the 330-day rule, >=) is modelled",
+        "time_re (the format-derived regular expression) and strptime's field extraction are a parameter (`stamp`): the driver is given the generated log's own fields per line; the arithmetic after that (datetime construction with year 1900, replace(year), the 330-day rule, >=) is modelled; since round 10 the format itself is an input of the model (fmtCheck: None / wrong type / unknown directive, and logs_have_year derived from the text)",
+        "parser.invoke: the outcome of each single construction (object / ContentException / SkipComponent / other exception) is taken from the implementation's own direct construction and handed to the model; the model says what the broker must hold; dr.run's own scheduling is C01-C04's subject",
         "str.lower is a parameter of the theorems; the driver uses ASCII lower-casing and the generator keeps non-ASCII characters caseless",
         "error phrases of the oracle: the documented lists at the pinned tree, hard-coded in harness/c14.py",
     ]
@@ -1533,6 +2255,58 @@ def run(chk):
     run_stream(chk, "get", cases, get_tag)
     chk.sample(cases[5])
 
+    # ---- 6c. round 10: argument checks of get / in (types of the search item and of num; None; bool; lazy class)
+    def getargs_tag(case, out):
+        return ["getargs:term=%s,num=%s" % (case["term"]["k"], case["num"]["k"]), "getargs:cls=%s" % case["cls"],
+                "getargs:get=%s,in=%s" % ("TE" if out[0] == "TE" else "list" if isinstance(out[0], list) else "other",
+                                          "TE" if out[1] == "TE" else "bool" if isinstance(out[1], bool) else "other")]
+    cases = [gen_getargs_case(rng) for _ in range(1500 * mult)]
+    for c in cases:
+        chk.case(("getargs", json.dumps(c, sort_keys=True)), bool(c["lines"]))
+    run_stream(chk, "get-arguments", cases, getargs_tag)
+    chk.sample(cases[0])
+
+    # ---- 6d. round 10: histories of scanner registrations over several classes (parent / subclass / sibling, registration
+    # after first use, duplicate keys, empty term lists, lazy parsers with do_scan(key) / do_scan())
+    def scan_tag(case, outs):
+        tags = ["scanhist:classes=%d" % sum(1 for o in case["ops"] if o["o"] == "C")]
+        for o, r in zip(case["ops"], outs):
+            tags.append("scanhist:%s:%s" % (o["o"], r if r in ("created", "registered", "VE", "TE", "lazy", "dead") else
+                                            "attrs%d" % min(r.count("="), 3) if r.startswith("A[") else "other"))
+        subs = [o for o in case["ops"] if o["o"] == "C" and not isinstance(o["base"], str)]
+        tags.append("scanhist:subclass-after-parent-registration=%s" % any(
+            any(q["o"] == "R" and q["c"] == o["base"] for q in case["ops"][:case["ops"].index(o)]) for o in subs))
+        return tags
+    cases = [gen_scanhist(rng) for _ in range(1200 * mult)]
+    for c in cases:
+        chk.case(("scanhist", json.dumps(c, sort_keys=True)), any(o["o"] == "R" for o in c["ops"]))
+    run_stream(chk, "scanner-history", cases, scan_tag)
+    chk.sample(cases[0])
+
+    # ---- 6e. round 10: the framework's entry point: plugins.parser.invoke through dr.run on a pre-populated broker
+    def invoke_tag(case, outs):
+        tags = ["invoke:%s,n=%d" % ("list" if case["many"] else "single", len(case["contents"]))]
+        for o in outs:
+            if len(o) == 3:
+                tags.append("invoke:%s:%s" % (o[0], o[1].split("\t")[0]))
+                for e in set(o[2]):
+                    tags.append("invoke:recorded:%s" % e)
+        return tags
+    cases = [gen_invoke_case(rng) for _ in range(700 * mult)]
+    for c in cases:
+        chk.case(("invoke", json.dumps(c, sort_keys=True)), bool(c["contents"]))
+    run_stream(chk, "parser-invoke", cases, invoke_tag)
+    chk.sample(cases[0])
+
+    # ---- 6f. round 10: time_format itself (None, wrong type, unknown directives, str / list / dict, class / instance)
+    def fmt_tag(case, out):
+        return ["afterfmt:format=%s/%s" % (case["tf"]["k"], case["mode"]), "afterfmt:result=%s" % (out if isinstance(out, str) else "lines")]
+    cases = [gen_afterfmt_case(rng) for _ in range(1200 * mult)]
+    for c in cases:
+        chk.case(("afterfmt", json.dumps(c, sort_keys=True)), True)
+    run_stream(chk, "get_after-format", cases, fmt_tag)
+    chk.sample(cases[0])
+
     # ---- 6b. histories of get_after calls (before the one-call stream: a failure that depends on earlier calls is
     # then reported with a replay that contains the calls): ambiguous format pairs on logs that share stamp texts
     def hist_tag(case, outs):
@@ -1567,6 +2341,16 @@ def run(chk):
     for c in cases:
         chk.case(("after", json.dumps(c, sort_keys=True)), any(l["t"] for l in c["lines"]))
     run_stream(chk, "get_after", cases, after_tag)
+    # round 10: every time format a shipped LogFileOutput subclass declares, rendered with strftime
+    chk.extra["shipped_time_formats"] = {k: {"classes": len(v["classes"]), "driven_through": (v["cls"].__module__ + "." + v["cls"].__name__) if v["cls"] else "fresh subclass"}
+                                         for k, v in sorted(SHIPPED_FORMATS.items())}
+    names = sorted(SHIPPED_FORMATS)
+    cases = []
+    for i in range((1500 if quick else 20000) if names else 0):
+        cases.append(gen_after_case(rng, fmt=names[i % len(names)]))
+    for c in cases:
+        chk.case(("after", json.dumps(c, sort_keys=True)), any(l["t"] for l in c["lines"]))
+    run_stream(chk, "get_after-shipped-formats", cases, after_tag)
     chk.sample({k: (v if k != "lines" else [l["text"] for l in v]) for k, v in cases[7].items()})
 
 
